@@ -565,6 +565,34 @@ def lane_crash_syscall(a, spec, by_line=False):
         else:
             kind = st if isinstance(st, str) and st == "MISSING" else ("unparsable" if isinstance(st, str) else "neither-old-nor-new")
             a.v("peers-file-not-atomic:" + kind.lower(), "%s: peers.json is %s" % (what, kind), w)
+    def restart(st, w, what):
+        """the node starts again: it reads its peer book (the documented start-up path), later records another peer.  Whatever
+        the crashed write left lying around, the book read is the one in the file, the file stays a complete list, and the
+        next completed write gives the new peer followed by the previous entries"""
+        if not isinstance(st, list):
+            return
+        rc, out, err = crash.run_plain(["load-peers"], work)
+        a.n += 1
+        a.inc("restarts_reading_the_peer_book")
+        m = re.search(rb"BOOK (.*)", out)
+        st2 = state()
+        if rc != 0 or not m:
+            a.v("peer-book-unreadable-after-crash", "%s, then a restart: reading the peer book failed: %s" % (what, err.decode("latin1")[-160:]), w)
+            return
+        if st2 != st:
+            a.v("peers-file-not-atomic:changed-by-restart", "%s, then a restart that only reads the peer book: peers.json is %s" % (
+                what, "UNPARSABLE/MISSING" if isinstance(st2, str) else "another list (%d entries, was %d)" % (len(st2), len(st))), w)
+            return
+        if sorted(json.loads(m.group(1).decode())) != sorted([r[0:3] for r in st]):
+            a.v("peer-book-read-differs-from-file", "%s, then a restart: the book read at start-up is not the list in peers.json" % what, w)
+            return
+        rc, out, err = crash.run_plain(["write-peers", "10.7.7.7", "2412"], work)
+        a.n += 1
+        a.inc("completed_writes_after_crash")
+        st3 = state()
+        if rc != 0 or not isinstance(st3, list) or [r[0:3] for r in st3] != ([["10.7.7.7", 2412, "OUTGOING"]] + [r[0:3] for r in st])[:100]:
+            a.v("completed-write-after-crash-corrupt", "%s, then a restart and a COMPLETED write of another peer: peers.json is not "
+                "that peer followed by the previous entries" % what, w)
     args = ["write-peers", "10.6.6.6", "2412"]
     reset()
     if not by_line:
@@ -585,6 +613,8 @@ def lane_crash_syscall(a, spec, by_line=False):
             a.digests.add(digest("psys", n))
             judge(state(), {"lane": "crash-peers-syscall", "point": n, "syscall": text[:100]},
                   "SIGKILL on entry to syscall #%d of write_peers (%s)" % (n, text[:60]))
+            restart(state(), {"lane": "crash-peers-syscall", "point": n, "syscall": text[:100]},
+                    "SIGKILL on entry to syscall #%d of write_peers (%s)" % (n, text[:40]))
         a.samples.append({"lane": "crash-peers-syscall", "region": [p[2][:70] for p in pts[:10]]})
     else:
         rc, out, err = crash.run_plain(["write-peers", "--count-lines", "1", "10.6.6.6", "2412"], work)
@@ -604,6 +634,7 @@ def lane_crash_syscall(a, spec, by_line=False):
             a.inc("line_exits_landed")
             a.digests.add(digest("pline", k))
             judge(state(), {"lane": "crash-peers-line", "line_event": k}, "process exit at statement boundary #%d of write_peers" % k)
+            restart(state(), {"lane": "crash-peers-line", "line_event": k}, "process exit at statement boundary #%d of write_peers" % k)
     shutil.rmtree(work, ignore_errors=True)
 
 
@@ -660,6 +691,7 @@ def finalize(m, tier):
                    ("consecutive_failures_driven", c.get("consecutive_failures_driven", 0), 2881),
                    ("invariant_evaluations", c.get("invariant_evaluations", 0), 10000),
                    ("crash points landed", c.get("kills_landed", 0) + c.get("line_exits_landed", 0), 10),
+                   ("restarts_reading_the_peer_book", c.get("restarts_reading_the_peer_book", 0), 10),
                    ("max_consecutive_failures_seen", c.get("max_consecutive_failures_seen", 0), 4),
                    ("small_scope_sequences", c.get("small_scope_sequences", 0), 8 ** 5)],
         "extra": {},
